@@ -77,3 +77,53 @@ func vrtHarness_C02_tdc() {
 		}
 	}
 }
+
+// Two queries outstanding on one pipelined/UDP connection, an arbitrary number of other
+// queries having come and gone between them (the wire-ID counter is anywhere, in particular
+// where the second query would get the first one's wire ID).  The server answers both.
+// Both replies arrive in time, so both callers return their own reply.
+func vrtHarness_C02_tdcWrap() {
+	stream := vrtChoice(2) == 1
+	conn := &vrtConn{stream: stream}
+	ctx, cancel := context.WithTimeout(context.Background(), 2*time.Second)
+	defer cancel()
+	dc := NewDnsConn(TraditionalDnsConnOpts{WithLengthHeader: stream, MaxConcurrentQuery: 8}, conn)
+	fromTop := vrtChoice(2) == 1
+	vrtSetCounter(&dc.nextQid, vrtU16(), fromTop)
+	ids := [2]uint16{vrtU16(), vrtU16()}
+	type result struct {
+		r   *[]byte
+		err error
+	}
+	var res [2]result
+	done := make(chan int, 2)
+	run := func(i int) {
+		ex, _ := dc.ReserveNewQuery()
+		if ex == nil {
+			res[i].err = ErrTDCClosed
+		} else {
+			res[i].r, res[i].err = ex.ExchangeReserved(ctx, vrtWire(ids[i], uint16(100+i)))
+		}
+		done <- i
+	}
+	go run(0)
+	vrtAwait(func() bool { return len(conn.frames) > 0 }, func() {})
+	// 0..65535 other queries came and went
+	dc.queueMu.Lock()
+	vrtSetCounter(&dc.nextQid, vrtU16(), fromTop)
+	dc.queueMu.Unlock()
+	go run(1)
+	vrtAwait(func() bool { return len(conn.frames) > 1 }, func() {
+		conn.serverSend(conn.frames[0])
+		conn.serverSend(conn.frames[1])
+	})
+	<-done
+	<-done
+	for i := 0; i < 2; i++ {
+		vrtCover("caller returned", true)
+		vrtAssert("a reply that arrived in time is returned (no error)", res[i].err == nil)
+		if res[i].err == nil {
+			vrtAssert("the reply is the caller's own, ID restored", vrtAnd(len(*res[i].r) == 14, vrtWireID(*res[i].r) == ids[i], vrtWireTag(*res[i].r) == uint16(100+i)))
+		}
+	}
+}
